@@ -8,7 +8,11 @@ import VlsModel.Drv.Common
    server S (K V X)*        → tag
    check S N T (K V X)*     → true|false helper(S) with last_nonce N: check_hmac(kvs, T)
    prep S K V X             → stored     value ‖ tag  (append_hmac_to_value)
-   proc S K V STORED        → ok X | err remove_and_check_hmac -/
+   proc S K V STORED        → ok X | err remove_and_check_hmac
+   one long-lived helper (state = last nonce):
+   hnew S                   → ok         ExternalPersistHelper::new(S)
+   hnonce E                 → nonce      new_nonce(entropy source whose next output is E)
+   hcheck T (K V X)*        → true|false check_hmac(kvs, T) under the current nonce -/
 namespace VlsModel.Drv.Hmac
 open VlsModel VlsModel.Hmac VlsModel.Drv
 
@@ -22,8 +26,26 @@ def recs? : List String → Option (List KVRec)
 
 def mac : Mac := Sha256.hmac
 
-def step (u : Unit) (toks : List String) : Unit × String :=
+def step (u : Option Helper) (toks : List String) : Option Helper × String :=
   match toks with
+  | ["hnew", s] =>
+    match hex? s with
+    | some s => (some (Helper.new s), "ok")
+    | none => (u, "bad-op")
+  | ["hnonce", e] =>
+    match u, hex? e with
+    | some h, some e =>
+      match h.step mac (.newNonce e) with
+      | (h', .nonce n) => (some h', toHex n)
+      | (h', _) => (some h', "bad-op")
+    | _, _ => (u, "no-helper")
+  | "hcheck" :: t :: rest =>
+    match u, hex? t, recs? rest with
+    | some h, some t, some rs =>
+      match h.step mac (.check rs t) with
+      | (h', .verdict ok) => (some h', if ok then "true" else "false")
+      | (h', _) => (some h', "bad-op")
+    | _, _, _ => (u, "no-helper")
   | "shared" :: s :: n :: rest =>
     match hex? s, hex? n, recs? rest with
     | some s, some n, some rs => (u, toHex (sharedTag mac s n rs))
@@ -54,6 +76,6 @@ def step (u : Unit) (toks : List String) : Unit × String :=
     | _, _, _, _ => (u, "bad-op")
   | _ => (u, "bad-op")
 
-def model : Model := { σ := Unit, init := (), step := step }
+def model : Model := { σ := Option Helper, init := none, step := step }
 
 end VlsModel.Drv.Hmac
